@@ -312,6 +312,58 @@ func VerifC11_RoundTripGroups() {
 	rt.Reach("groups-end")
 }
 
+// float operands: preserved exactly through print -> parse (values that need
+// all 17 significant digits, the limits of the float64 range, integers beyond
+// 2^24)
+func VerifC11_FloatOperands() {
+	vals := []float64{0.30000000000000004, 120.41300000000001, 16777217, 1e300, 5e-324, 1.7976931348623157e308, -0.1, 1.1, 0, -2.5e-7, 9007199254740993}
+	v := vals[rt.Choice("value", len(vals))]
+	op := []uint8{FloatEquals, FloatGreaterThan, FloatGreaterThanOrEqual, FloatLessThan, FloatLessThanOrEqual}[rt.Choice("op", 5)]
+	q := New("t:p").Where(Where("f", op, v))
+	if _, err := q.Check(); err != nil {
+		rt.Assert(false, "float/built-query-checks")
+		return
+	}
+	text := q.Print()
+	back, err := ParseQuery(text)
+	rt.Assert(err == nil, "float/parse-ok")
+	if err != nil {
+		return
+	}
+	fc, ok := back.where.(*floatCondition)
+	rt.Assert(ok, "float/is-float-condition")
+	if ok {
+		rt.Assert(fc.value == v, "float/operand-exact")
+		rt.Assert(fc.operator == op, "float/operator")
+	}
+	rt.Assert(back.Print() == text, "float/print-stable")
+	rt.Reach("float-end")
+}
+
+// limit and offset over the whole range of the API's int parameter
+func VerifC11_LimitOffset() {
+	vals := []int{0, 1, 10, 2147483647, 2147483648, 3000000000, 1 << 62, 9223372036854775807}
+	limit := vals[rt.Choice("limit", len(vals))]
+	offset := vals[rt.Choice("offset", len(vals))]
+	q := New("t:p").Limit(limit).Offset(offset)
+	if rt.Bool("where") {
+		q.Where(Where("n", GreaterThan, 1))
+	}
+	if _, err := q.Check(); err != nil {
+		return
+	}
+	text := q.Print()
+	back, err := ParseQuery(text)
+	rt.Assert(err == nil, "limitoffset/parse-ok")
+	if err != nil {
+		return
+	}
+	rt.Assert(back.limit == limit, "limitoffset/limit-exact")
+	rt.Assert(back.offset == offset, "limitoffset/offset-exact")
+	rt.Assert(back.Print() == text, "limitoffset/print-stable")
+	rt.Reach("limitoffset-end")
+}
+
 // groups of zero or one condition, nested and negated
 func VerifC11_GroupShapes() {
 	a, b := Where("n", GreaterThan, 1), Where("s", SameAs, "x")
